@@ -8,7 +8,7 @@ import (
 
 // C20: identity isolation between dialer and listener.
 
-//verif:check C20 stubs=rt,timers,valuefile,abslog reach=match,mismatch,end desc="Raft.replyRPC identity arm for every pair of (cluster id, node id) identities: success iff both match, and nothing but the reply changes" bounds="all 64-bit ids"
+//verif:check C20,C17 stubs=rt,timers,valuefile,abslog reach=match,mismatch,end desc="Raft.replyRPC identity arm for every pair of (cluster id, node id) identities: success iff both match, nothing but the reply changes, and a refused handshake (a dialer that took this node for another cluster or node) never counts as hearing from the leader: it does not reset the election timer, whatever node id the dialer carries" bounds="all 64-bit ids"
 func VH_C20_replyRPC_identity() {
 	r := vLoopNode(Follower)
 	r.cid, r.nid = vU64("my.cid"), vU64("my.nid")
@@ -17,9 +17,10 @@ func VH_C20_replyRPC_identity() {
 	c, _ := vMkConn(nil)
 	x := &rpc{req: req, conn: c, done: make(chan struct{})}
 	t0, v0, l0, s0, last0 := r.term, r.votedFor, r.leader, r.state, r.lastLogIndex
-	r.replyRPC(x)
+	reset := r.replyRPC(x)
 	vAssert(isClosed(x.done) && x.resp != nil, "replied")
 	same := vAnd(req.cid == r.cid, req.nid == r.nid)
+	vAssert(vImp(reset, same), "I-refused-handshake-does-not-reset-the-election-timer")
 	if x.resp.getResult() == success {
 		vReach("match")
 		vAssert(same, "I-success-only-for-matching-identity")
